@@ -4,7 +4,7 @@
    constructors) exactly.  Oracle answers (brentq / quadratic root) come with the case and their
    defining equation is re-evaluated here in exact arithmetic. *)
 From Coq Require Import List Arith NArith ZArith QArith Qabs Bool.
-From TLV Require Import Base.Shape Base.Tensor Model.Structure Model.StructureQ Model.StructureHooi Model.StructureWeights Model.StructureRanks Model.StructureTrAls Corr.Common.
+From TLV Require Import Base.Shape Base.Tensor Model.Structure Model.StructureQ Model.StructureHooi Model.StructureWeights Model.StructureRanks Model.StructureTrAls Model.StructureCmtf Corr.Common.
 Import ListNotations.
 Local Open Scope nat_scope.
 
@@ -28,6 +28,10 @@ Inductive op :=
 (* the loop of tensor_ring_als (Model/StructureTrAls.v): shapes of the returned cores for the run's iteration cap and decisions (answer tape:
    callback asked to stop, convergence fired), followed - when the run's lstsq calls were logged - by the (design matrix, right-hand side)
    shapes of the first sweep *)
+(* the loop of coupled_matrix_tensor_3d_factorization (Model/StructureCmtf.v): shapes of everything returned for the run's iteration cap and decisions
+   (answer tape: convergence fired, read off the returned error list), followed - when the lstsq calls were logged - by the (design matrix, right-hand
+   side) shapes of the four least-squares problems of the first sweep *)
+| DCmtfLoop (shape3 : list nat) (m : nat) (spec : rspec) (n_iter : nat) (decisions : list bool) (with_log : bool)
 | DTrAlsLoop (shape : list nat) (spec : rspec) (tol_pos : bool) (n_iter : nat) (decisions : list (bool * bool)) (with_log : bool)
 (* control flow of the CP drivers w.r.t. normalisation; the decisions are the implementation's (answer tape) *)
 | DNorm (d : driver) (nf tol_set : bool) (ik : init_kind) (n_modes : nat) (fixed : list nat) (n_iter : nat)
@@ -99,6 +103,12 @@ Definition run (o : op) : res (list (list nat)) :=
   | DParafac2 slices r => parafac2 slices r
   | DTrAls shape spec => one (tensor_ring_als shape spec) tt_observe
   | DCmtf shape3 m spec => cmtf shape3 m spec
+  | DCmtfLoop shape3 m spec n decisions with_log =>
+      rbind (validate_cp_rank shape3 spec RRound) (fun r =>
+      rbind (cmtf_run shape3 m spec n decisions) (fun out =>
+      if with_log then rbind (cmtf_sweep shape3 [hd 0 shape3; m] (map (fun s => [s; r]) shape3))
+                             (fun sw => Ok (out ++ flat_map (fun p => [fst p; snd p]) (fst (fst sw))))
+      else Ok out))
   | DTrAlsLoop shape spec tol_pos n decisions with_log =>
       rbind (validate_tr_rank shape spec RRound) (fun rank =>
       rbind (tr_als_run shape spec tol_pos n decisions) (fun cores =>
